@@ -159,6 +159,7 @@ const (
 	ErrChecksumTypeWithAlgo
 	ErrInvalidChecksumHeader
 	ErrTrailerHeaderNotSupported
+	ErrIncompleteBody
 
 	// Non-AWS errors
 	ErrExistingObjectIsDirectory
@@ -736,6 +737,11 @@ var errorCodeResponse = map[ErrorCode]APIError{
 		Code:           "XAdminInvalidArgument",
 		Description:    "User access key ID is missing.",
 		HTTPStatusCode: http.StatusNotFound,
+	},
+	ErrIncompleteBody: {
+		Code:           "IncompleteBody",
+		Description:    "You did not provide the number of bytes specified by the Content-Length HTTP header.",
+		HTTPStatusCode: http.StatusBadRequest,
 	},
 	ErrAdminMethodNotSupported: {
 		Code:           "XAdminMethodNotSupported",
